@@ -5,6 +5,7 @@
 // Oracle numerics: canonical moments from closed forms in __float128 (libquadmath), pulled to the transformed
 // domain with the documented map by a binomial expansion carried out in __float128.
 #include "tgrid.hpp"
+#include "TasmanianAddons.hpp"
 #include <quadmath.h>
 #include <complex>
 using namespace tg;
@@ -58,6 +59,22 @@ static bool usesAlpha(TypeOneDRule r){ return r == rule_gaussgegenbauer || r == 
 static bool usesBeta(TypeOneDRule r){ return r == rule_gaussjacobi || r == rule_gaussjacobiodd; }
 static bool unbounded(TypeOneDRule r){ return r == rule_gausslaguerre || r == rule_gausslaguerreodd || r == rule_gausshermite || r == rule_gausshermiteodd; }
 
+// exotic quadrature (Addons/tsgExoticQuadrature.hpp): custom-tabulated Gauss rules for a user weight function rho on [-1,1].
+// variant 1: rho = 1 + x/2 (positive, not symmetric, shift 0); variant 2: rho = x^2 - 1/5 (changes sign, symmetric, shift 1/2)
+static bool is_exotic(const Cfg &cfg){ return cfg.custom.compare(0, 7, "exotic:") == 0; }
+static int exotic_variant(const Cfg &cfg){ return atoi(cfg.custom.c_str() + 7); }
+static Q exotic_moment(int variant, int k){ // int_{-1}^{1} t^k rho(t) dt
+    auto m = [](int q)->Q{ return (q % 2 == 1) ? (Q) 0 : (Q) 2 / (Q)(q + 1); };
+    return (variant == 1) ? m(k) + m(k + 1) / 2 : m(k + 2) - m(k) / 5;
+}
+static void make2(TasmanianSparseGrid &g, const Cfg &cfg){
+    if (!is_exotic(cfg)){ make(g, cfg); return; }
+    int v = exotic_variant(cfg);
+    TasGrid::CustomTabulated ct = (v == 1) ? TasGrid::getExoticQuadrature(6, 0.0, [](double x)->double{ return 1.0 + 0.5 * x; }, 60, "exotic 1+x/2", false)
+                                           : TasGrid::getExoticQuadrature(6, 0.5, [](double x)->double{ return x * x - 0.2; }, 60, "exotic x^2-1/5", true);
+    g.makeGlobalGrid(cfg.dims, cfg.outs, cfg.depth, cfg.type, std::move(ct), cfg.aw, cfg.limits);
+    if (!cfg.ta.empty()) g.setDomainTransform(cfg.ta, cfg.tb);
+}
 struct Ctx { std::string unit; long evals = 0, states = 0, transitions = 0, skipped = 0; std::set<std::string> distinct; int nviol = 0; bool replay = false; };
 
 static void report(Ctx &c, const std::string &sig, const Cfg &cfg, const std::string &hist, const std::string &detail){
@@ -126,7 +143,8 @@ static void check_state(Ctx &c, const Cfg &cfg, TasmanianSparseGrid &g, const st
                     for(int j=0;j<d;j++){ int k = qs[s*d+j]; Q m = canon_moment(rule_clenshawcurtis, k-2, 0, 0) - canon_moment(rule_clenshawcurtis, k, 0, 0); if (tr) m *= ((Q) cfg.tb[j] - (Q) cfg.ta[j]) / 2; exq *= m; }
                     for(int i=0;i<n;i++){ double v = w[i]; for(int j=0;j<d;j++){ double t = tr ? to_canonical(x[i*d+j], cfg.ta[j], cfg.tb[j]) : x[i*d+j]; v *= (1.0 - t*t) * ipow(t, qs[s*d+j] - 2); } sum += v; sa += std::abs(v); }
                 }else{
-                    for(int j=0;j<d;j++) exq *= moment(g.getRule(), qs[s*d+j], cfg.alpha, cfg.beta, tr, tr ? cfg.ta[j] : 0, tr ? cfg.tb[j] : 0);
+                    if (is_exotic(cfg)){ if (tr){ c.skipped++; continue; } for(int j=0;j<d;j++) exq *= exotic_moment(exotic_variant(cfg), qs[s*d+j]); }
+                    else for(int j=0;j<d;j++) exq *= moment(g.getRule(), qs[s*d+j], cfg.alpha, cfg.beta, tr, tr ? cfg.ta[j] : 0, tr ? cfg.tb[j] : 0);
                     for(int i=0;i<n;i++){ double v = w[i]; for(int j=0;j<d;j++) v *= ipow(x[i*d+j], qs[s*d+j]); sum += v; sa += std::abs(v); }
                 }
                 double ex = (double) exq;
@@ -200,7 +218,7 @@ static void check_state(Ctx &c, const Cfg &cfg, TasmanianSparseGrid &g, const st
 // loaded route for C03: one output per member of the space (capped), evaluate at probes
 static void check_loaded_route(Ctx &c, const Cfg &cfg0, const std::string &hist){
     Cfg cfg = cfg0; int d = cfg.dims; bool tr = !cfg.ta.empty();
-    TasmanianSparseGrid g0; Cfg c0 = cfg; c0.outs = 0; make(g0, c0);
+    TasmanianSparseGrid g0; Cfg c0 = cfg; c0.outs = 0; make2(g0, c0);
     bool cc0 = (cfg.rule == rule_clenshawcurtis0);
     std::vector<std::vector<int>> space; // exponent vectors (for fourier: frequencies)
     if (cfg.fam == F_GLOBAL || cfg.fam == F_SEQUENCE){
@@ -216,7 +234,7 @@ static void check_loaded_route(Ctx &c, const Cfg &cfg0, const std::string &hist)
     // spread a cap of 24 members over the space (first, last and evenly spaced ones)
     std::vector<std::vector<int>> sel; size_t cap = 24; if (space.size() <= cap) sel = space; else for(size_t i=0;i<cap;i++) sel.push_back(space[i * (space.size() - 1) / (cap - 1)]);
     int outs = (int) sel.size() * (cfg.fam == F_FOURIER ? 2 : 1); cfg.outs = outs;
-    TasmanianSparseGrid g; make(g, cfg);
+    TasmanianSparseGrid g; make2(g, cfg);
     auto canon = [&](double v, int j){ if (!tr) return v; if (cfg.fam == F_FOURIER) return (v - cfg.ta[j]) / (cfg.tb[j] - cfg.ta[j]); return v; };
     auto f = [&](const double *p, size_t s, int part)->double{
         if (cfg.fam == F_FOURIER){ double ph = 0; for(int j=0;j<d;j++) ph += 2 * M_PI * sel[s][j] * canon(p[j], j); return part ? std::sin(ph) : std::cos(ph); }
@@ -250,7 +268,7 @@ static void explore_cfg(Ctx &c, const Cfg &cfg){
     TasmanianSparseGrid g;
     // a depth beyond a hard-coded / custom table is documented to throw std::runtime_error: such configurations are outside the lattice
     auto table_limit = [](const std::string &w){ return w.find("hardcoded") != std::string::npos || w.find("are provided") != std::string::npos || w.find("table ends") != std::string::npos; };
-    try{ make(g, cfg); }catch(std::runtime_error &e){ if (table_limit(e.what())){ c.skipped++; return; } report(c, g_prop + ":make-throws:" + std::string(IO::getRuleString(cfg.rule)), cfg, "make", e.what()); return; }
+    try{ make2(g, cfg); }catch(std::runtime_error &e){ if (table_limit(e.what())){ c.skipped++; return; } report(c, g_prop + ":make-throws:" + std::string(IO::getRuleString(cfg.rule)), cfg, "make", e.what()); return; }
     catch(std::exception &e){ report(c, g_prop + ":make-throws:" + std::string(IO::getRuleString(cfg.rule)), cfg, "make", e.what()); return; }
     if (g.getNumPoints() > ((cfg.fam == F_FOURIER) ? 800 : 2500)){ c.skipped++; return; }
     c.states++;
@@ -260,7 +278,7 @@ static void explore_cfg(Ctx &c, const Cfg &cfg){
     // transition 1: update(depth+1) on the point-only grid
     if (cfg.depth <= 3){
         try{
-            TasmanianSparseGrid h; make(h, cfg); h.updateGrid(cfg.depth + 1, cfg.type, cfg.aw); c.transitions++;
+            TasmanianSparseGrid h; make2(h, cfg); h.updateGrid(cfg.depth + 1, cfg.type, cfg.aw); c.transitions++;
             if (h.getNumPoints() <= ((cfg.fam == F_FOURIER) ? 800 : 2500)){ c.states++; check_state(c, cfg, h, "make update(depth+1)"); }
         }catch(std::runtime_error &e){ if (!table_limit(e.what())) report(c, g_prop + ":update-throws:" + std::string(IO::getRuleString(cfg.rule)), cfg, "make update(depth+1)", e.what()); else c.skipped++;
         }catch(std::exception &e){ report(c, g_prop + ":update-throws:" + std::string(IO::getRuleString(cfg.rule)), cfg, "make update(depth+1)", e.what()); }
@@ -268,7 +286,7 @@ static void explore_cfg(Ctx &c, const Cfg &cfg){
     // transition 2: (C02) load, update(depth+1), load => merged grid with values; integrate = weights.values
     if (g_prop == "C02" && cfg.depth <= 2 && !(cfg.fam == F_GLOBAL && OneDimensionalMeta::isNonNested(cfg.rule) && false)){
         try{
-            Cfg c1 = cfg; c1.outs = 2; TasmanianSparseGrid h; make(h, c1);
+            Cfg c1 = cfg; c1.outs = 2; TasmanianSparseGrid h; make2(h, c1);
             int kind = (cfg.fam == F_FOURIER) ? 4 : (unbounded(cfg.rule) ? 1 : 0);
             h.loadNeededValues(model_values(kind, h.getNeededPoints(), cfg.dims, 2)); c.transitions++; c.states++;
             check_state(c, cfg, h, "make(outs=2) load");
@@ -296,6 +314,7 @@ static std::vector<Unit> units(){
     for(auto r : global_rules()) for(int d=1; d<=(th?3:2); d++) u.push_back({F_GLOBAL, r, d, 0});
     for(auto r : {rule_leja, rule_rleja, rule_rlejashifted, rule_maxlebesgue, rule_minlebesgue, rule_mindelta}) for(int d=1; d<=(th?3:2); d++) u.push_back({F_SEQUENCE, r, d, 0});
     for(int d=1; d<=(th?3:2); d++) u.push_back({F_FOURIER, rule_fourier, d, 0});
+    if (g_prop == "C02") for(int v : {1, 2}) for(int d=1; d<=2; d++) u.push_back({F_GLOBAL, rule_customtabulated, d, 100 + v}); // exotic quadrature (order field carries the variant)
     if (g_prop == "C03"){
         for(auto r : {rule_localp, rule_semilocalp, rule_localp0, rule_localpb}) for(int order : {-1, 0, 1, 2, 3, 4}) for(int d=1; d<=3; d++){ if (r == rule_semilocalp && order >= 0 && order < 2) continue; if (!th && d == 3 && !(order == 1 || order == 2)) continue; u.push_back({F_LOCALP, r, d, order}); } // 3-D: the Kronecker surplus algorithm
         for(int order : {1, 3}) for(int d=1; d<=2; d++) u.push_back({F_WAVELET, rule_wavelet, d, order});
@@ -329,7 +348,8 @@ static std::vector<Cfg> unit_cfgs(const Unit &u){
     for(auto type : all_types()) for(int depth=0; depth<=maxdepth; depth++) for(size_t iw=0; iw<W1.size(); iw++) for(auto &lim : LIM) for(int tr : trs) for(auto &ab : AB){
         Cfg c; c.fam = u.fam; c.rule = u.rule; c.dims = d; c.outs = 0; c.depth = depth; c.type = type;
         c.aw = OneDimensionalMeta::isTypeCurved(type) ? Wc[iw] : W1[iw]; c.limits = lim; c.alpha = ab[0]; c.beta = ab[1];
-        if (u.rule == rule_customtabulated) c.custom = repo_root() + "/SparseGrids/GaussPattersonRule.table";
+        if (u.rule == rule_customtabulated) c.custom = (u.order > 100) ? "exotic:" + std::to_string(u.order - 100) : repo_root() + "/SparseGrids/GaussPattersonRule.table";
+        if (u.order > 100 && (tr || depth > 4)) continue; // exotic rules: canonical domain, 6 tabulated levels
         if (tr){ c.ta.assign(ta.begin(), ta.begin()+d); c.tb.assign(tb.begin(), tb.begin()+d); if (u.rule == rule_gausslaguerre || u.rule == rule_gausslaguerreodd || u.rule == rule_gausshermite || u.rule == rule_gausshermiteodd){ c.tb = std::vector<double>{2.0, 0.5, 1.25}; c.tb.resize(d); } }
         out.push_back(c);
     }
@@ -349,7 +369,7 @@ int main(int argc, char **argv){
     }
     auto U = units();
     size_t done = vf::parallel_units(U.size(), (int) A.geti("--workers", 8), [&](size_t ui){
-        const Unit &u = U[ui]; Ctx c; std::ostringstream nm; nm << famname(u.fam) << "/" << IO::getRuleString(u.rule) << "/d" << u.dims; if (u.fam == F_LOCALP || u.fam == F_WAVELET) nm << "/order" << u.order; c.unit = nm.str();
+        const Unit &u = U[ui]; Ctx c; std::ostringstream nm; nm << famname(u.fam) << "/" << IO::getRuleString(u.rule) << "/d" << u.dims; if (u.fam == F_LOCALP || u.fam == F_WAVELET) nm << "/order" << u.order; if (u.order > 100) nm << "/exotic" << (u.order - 100); c.unit = nm.str();
         auto cfgs = unit_cfgs(u); bool complete = true; size_t k = 0; double t0 = vf::now(); int ncrash = 0;
         // configurations run in forked children, a chunk per child; the child reports one line per finished configuration,
         // so a crash / sanitizer report / hang is attributed to the configuration after the last finished one
